@@ -14,10 +14,12 @@ Theorem C06_roundtrip_multi :
 Proof. exact roundtrip_multi. Qed.
 Print Assumptions C06_roundtrip_multi.
 
-(* one-line format (two-pass column alignment) when no URL is written and the first requirer does not
-   trip the loader's `startswith(" via")` test (never with --annotate).  The unguarded statement
-     forall o v, o_multi o = false -> pins of v well formed -> load (write o v) = Ok (erase o v)
-   is false: see C06_single_urls_refuted and C06_single_via_prefix_refuted below. *)
+(* one-line format (two-pass column alignment), hashes / urls / annotate in every combination.  The guard
+   that remains in wf_single beyond the lexical conditions on tokens: without --annotate the comment must
+   not start with the word "via" (a requirer literally named `via` followed by a specifier), which the
+   loader reads as pip-compile's "# via x" layout.  The unguarded statement
+     forall o v, o_multi o = false -> wf_view o v = true -> load (write o v) = Ok (erase o v)
+   is false: see C06_single_requirer_named_via_refuted. *)
 Theorem C06_roundtrip_single_partial :
   forall o v, wf_single o v = true -> load (write o v) = Ok (erase o v).
 Proof. exact roundtrip_single. Qed.
@@ -68,32 +70,27 @@ Print Assumptions C06_edges_roundtrip_multi.
 (* the hypotheses are satisfiable by a rich view in all option sets *)
 Theorem C06_wf_satisfiable :
   forallb (fun h => forallb (fun u => forallb (fun a => wf_multi (ex_opts true h u a) ex_view) [true; false]) [true; false]) [true; false] = true
-  /\ forallb (fun h => forallb (fun a => wf_single (ex_opts false h false a) ex_view) [true; false]) [true; false] = true
+  /\ forallb (fun h => forallb (fun u => forallb (fun a => wf_single (ex_opts false h u a) ex_view) [true; false]) [true; false]) [true; false] = true
   /\ forallb (fun h => forallb (fun u => forallb (fun a => wf_auto (ex_opts_f None h u a) ex_view) [true; false]) [true; false]) [true; false] = true
   /\ load (write (ex_opts true true true true) ex_view) = Ok ex_view.
 Proof. exact (conj wf_multi_example (conj wf_single_example (conj wf_auto_example roundtrip_example))). Qed.
 Print Assumptions C06_wf_satisfiable.
 
-Theorem C06_single_urls_refuted :
-  exists o v, wf_multi (mkOpts (Some true) (o_hashes o) (o_urls o) (o_annot o) (o_index o) (o_links o)) v = true /\
-              o_multi o = false /\ o_urls o = true /\
-              load (write o v) = Err ENotAnnotated.
-Proof. exact single_urls_refuted. Qed.
-Print Assumptions C06_single_urls_refuted.
+(* repaired (were refuted): one-line output with URLs, a first requirer starting with "via" (viaduct), a
+   version equal to 0+missing are inside the theorems above; here as computed instances *)
+Theorem C06_former_findings_roundtrip :
+  wf_single (ex_opts false true true false) ex_view = true /\
+  wf_single (mkOpts (Some false) false false None [] []) via_view = true /\
+  wf_multi (mkOpts (Some true) false false None [] []) missing_view = true /\
+  load (write (mkOpts (Some true) false false None [] []) missing_view) = Ok missing_view.
+Proof. exact former_findings_example. Qed.
+Print Assumptions C06_former_findings_roundtrip.
 
-Theorem C06_single_via_prefix_refuted :
+Theorem C06_single_requirer_named_via_refuted :
   exists o v, wf_multi (mkOpts (Some true) (o_hashes o) (o_urls o) (o_annot o) (o_index o) (o_links o)) v = true /\
-              o_multi o = false /\ o_urls o = false /\
-              load (write o v) = Ok [mkPin "c" "2.0" None None [mkVia "uct" [] "" []]] /\
-              edges [mkPin "c" "2.0" None None [mkVia "uct" [] "" []]] <> edges v.
-Proof. exact single_via_prefix_refuted. Qed.
-Print Assumptions C06_single_via_prefix_refuted.
-
-Theorem C06_placeholder_version_refuted :
-  exists o v, o_multi o = true /\ pin_version ("==" ++ "0+missing") = Ok "0+missing" /\
-              load_entries (write o v) = Ok v /\ load (write o v) = Ok [].
-Proof. exact placeholder_version_refuted. Qed.
-Print Assumptions C06_placeholder_version_refuted.
+              o_format o = Some false /\ load (write o v) = Err EValue.
+Proof. exact single_requirer_named_via_refuted. Qed.
+Print Assumptions C06_single_requirer_named_via_refuted.
 
 (* what T1 read from /repo is what the proofs were written for *)
 Theorem C06_gen_constants_ok : gen_constants_ok.
